@@ -734,9 +734,10 @@ class Func:
             out.update(callee_keys(self.term(bi)))
         return out
 
-    def forward_locals(self, start, through_calls=None):
+    def forward_locals(self, start, through_calls=None, into_fields=False):
         """locals that receive (a carrier of) the value in `start`, following moves/copies/refs,
-        and results of calls in `through_calls` (set of callee keys; None = every call)."""
+        and results of calls in `through_calls` (set of callee keys; None = every call).
+        Stores into a field / element of another local are not followed unless into_fields."""
         seen = set()
         dq = deque(start)
         while dq:
@@ -746,8 +747,19 @@ class Func:
             seen.add(l)
             for u in self.uses(l):
                 if u["kind"] == "assign":
-                    dq.append(u["p"][0])
+                    if len(u["p"]) > 1 and not into_fields:
+                        continue
+                    # value use only: the local must be an operand, not merely an index inside a place
+                    direct = False
+                    for src in u["srcs"]:
+                        pl = op_place(src) if src[0] in ("cp", "mv") else (src[1] if src[0] == "pl" else None)
+                        if pl and pl[0] == l:
+                            direct = True
+                    if direct:
+                        dq.append(u["p"][0])
                 elif u["kind"] == "call":
+                    if not any(op_place(a) and op_place(a)[0] == l for a in u["term"]["a"]):
+                        continue
                     if through_calls is None or is_call_to(u["term"], *through_calls):
                         if u["p"]:
                             dq.append(u["p"][0])
